@@ -442,7 +442,7 @@ func (h *indexedBinomial[K, V]) ContainsIndex(i int) bool {
 
 // ContainsKey returns true if the given key is on the heap.
 func (h *indexedBinomial[K, V]) ContainsKey(key K) bool {
-	for i := 0; i < h.n; i++ {
+	for i := 0; i < len(h.nodes); i++ {
 		if h.nodes[i] != nil && h.cmpKey(h.nodes[i].key, key) == 0 {
 			return true
 		}
@@ -453,7 +453,7 @@ func (h *indexedBinomial[K, V]) ContainsKey(key K) bool {
 
 // ContainsValue returns true if the given value is on the heap.
 func (h *indexedBinomial[K, V]) ContainsValue(val V) bool {
-	for i := 0; i < h.n; i++ {
+	for i := 0; i < len(h.nodes); i++ {
 		if h.nodes[i] != nil && h.eqVal(h.nodes[i].val, val) {
 			return true
 		}
